@@ -61,6 +61,7 @@ def build_registry(mods):
     reg.models[common.exists_range] = _models.q_exists
     reg.models[common.is_opaque] = _models.m_is_opaque
     reg.models[common.prefix_fold] = _models.m_prefix_fold
+    reg.models[common.forall_keys] = _models.q_forall_keys
     reg.models[common.items_of] = _models.m_items_of
     reg.link()
     # loop specs keyed by (file, ast-qualname, ordinal)
